@@ -153,6 +153,64 @@ def vm_cross_check(buf_file, limit=400):
     return ok, len(sample), out[-400:]
 
 
+def vm_lease_check(lease_file, limit=100000):
+    """Evaluates the recorded lease-manager cases inside Coq (vm_compute on Model/Lease.v). Returns (ok, n, msg)."""
+    codes = {}
+    cases = []
+    cur = None
+    for line in open(lease_file):
+        w = line.split()
+        if not w:
+            continue
+        if w[0] == "code":
+            codes[w[2]] = int(w[1])
+        elif w[0] == "case":
+            cur = dict(gen=int(w[1]), kind=w[3], n=int(w[4]), index=int(w[5]), outs=w[6:], evs=[], ret=None, calls=0)
+        elif w[0] == "endcase" and cur:
+            cases.append(cur)
+            cur = None
+        elif cur is not None:
+            if w[0] == "ev":
+                cur["evs"].append(w[1:])
+            elif w[0] == "ret":
+                cur["ret"] = int(w[1])
+            elif (w[0] == "call" and w[1] in ("upload", "acquire", "create-container")) or w[0] == "http":
+                cur["calls"] += 1
+
+    def ecode(o):
+        m = {"ok": "EOk", "other": "ENonStorage", "cancel": "ENonStorage", "ContainerAlreadyExists": "EContainerAlreadyExists",
+             "BlobAlreadyExists": "EBlobAlreadyExists", "LeaseIdMissing": "ELeaseIdMissing", "LeaseAlreadyPresent": "ELeaseAlreadyPresent"}
+        return m.get(o) or "EOtherStorage %d" % codes.get(o, 9999)
+
+    def ev(e):
+        m = {"created-container": "LCreatedContainer", "verified-container": "LVerifiedContainer", "error": "LError"}
+        if e[0] in m:
+            return m[e[0]]
+        return {"created-blob": "LCreatedBlob", "verified-blob": "LVerifiedBlob", "failed": "LFailed"}[e[0]] + " " + e[1]
+
+    lines = []
+    for c in cases[:limit]:
+        if c["ret"] is None:
+            continue
+        if c["kind"] == "provision":
+            k = "CProvision (%s)" % ecode(c["outs"][0])
+        elif c["kind"] == "lease":
+            k = "CLease %d (%s)" % (c["index"], ecode(c["outs"][0]))
+        else:
+            k = "CCreate %s %d [%s]" % ("V1" if c["gen"] == 1 else "V2", c["n"], "; ".join(ecode(o) for o in c["outs"]))
+        lines.append("(%s, [%s], %d%%Z, %d%%nat)" % (k, "; ".join(ev(e) for e in c["evs"]), c["ret"], c["calls"]))
+    src = ("From Coq Require Import List ZArith Bool Arith.\nFrom GB Require Import Model.Allowance Model.Batcher Model.Lease Replay.LeaseCases.\nImport ListNotations.\n"
+           "Definition cases : list (lcase * list levent * Z * nat) := [\n" + ";\n".join(lines) + "\n].\n"
+           "Definition all_ok := Eval vm_compute in forallb lcase_ok cases.\nPrint all_ok.\n"
+           "Definition bad := Eval vm_compute in length (filter (fun c => negb (lcase_ok c)) cases).\nPrint bad.\n")
+    os.makedirs(os.path.join(WORK, "vm"), exist_ok=True)
+    path = os.path.join(WORK, "vm", "LeaseCasesRun.v")
+    open(path, "w").write(src)
+    rc, out = sh("coqc -Q %s GB %s" % (COQ, path), cwd=os.path.join(WORK, "vm"), timeout=900)
+    ok = rc == 0 and re.search(r"all_ok\s*=\s*true", out) is not None
+    return ok, len(lines), out[-400:]
+
+
 def print_assumptions(prop_file):
     """Re-runs coqc on a Props file and returns its Print Assumptions output."""
     rc, out = sh("coqc -Q . GB %s" % prop_file, cwd=COQ, timeout=600)
